@@ -63,7 +63,11 @@ def State.init : State := { used := Counter.empty, inline := Counter.empty }
 def slotCount (p : Params) (kind : Option ObjKind) (len : Option Nat) : Nat :=
   len.getD 1 * sliceCost p.metalSlotLayout kind
 
-/-- One call of `process_definition`; `Except` error = the Rust arm panics. -/
+/-- One call of `process_definition`.  Since fix 774c0b4 ("a global of an object type that is not a resource is not
+    given a register") no arm panics: `register_type = match tyl { Object(ot) => ot.get_register_type(), _ => None }`
+    and only `Some(register_type)` is bound, so a global of a non-resource object kind (`RayDesc`, `RayQuery`,
+    `TriangleStream`, the mips views) is left alone exactly like a non-object global.  The `Except` type is kept for
+    the callers (`Module.assignApiBindings` still has the `assert!(!assigned_api_slots)` guard). -/
 def step (p : Params) (dflt : Nat) (st : State) : Decl → Except String (State × Option Binding)
   | .other => .ok (st, none)
   | .cbuffer set =>
@@ -78,17 +82,16 @@ def step (p : Params) (dflt : Nat) (st : State) : Decl → Except String (State 
     | none => .ok (st, none)
     | some k =>
       let n := slotCount p (some k) len
-      if p.supportBufferAddress && isBufferAddress k && len.isNone then
-        let (off, inl') := st.inline.bump g (8 * n)
-        .ok ({ st with inline := inl' }, some { set := g, loc := .inline off, slotType := none })
-      else
-        let (idx, used') := st.used.bump g n
-        if p.requireSlotType then
-          match registerType k with
-          | some r => .ok ({ st with used := used' }, some { set := g, loc := .index idx, slotType := some r })
-          | none => .error "get_register_type called on non-root object types"
+      match registerType k with
+      | none => .ok (st, none)
+      | some r =>
+        if p.supportBufferAddress && isBufferAddress k && len.isNone then
+          let (off, inl') := st.inline.bump g (8 * n)
+          .ok ({ st with inline := inl' }, some { set := g, loc := .inline off, slotType := none })
         else
-          .ok ({ st with used := used' }, some { set := g, loc := .index idx, slotType := none })
+          let (idx, used') := st.used.bump g n
+          .ok ({ st with used := used' },
+               some { set := g, loc := .index idx, slotType := if p.requireSlotType then some r else none })
 
 def run (p : Params) (dflt : Nat) : State → List Decl → Except String (State × List (Option Binding))
   | st, [] => .ok (st, [])
